@@ -10,6 +10,7 @@ declare -A PKG=(
  [kvm-time-from-wall-clock]=./mainchain/kvm/
  [sender-cache-ignores-signer]=./types/
  [receipt-logs-in-map-order]=./mainchain/blockchain/
+ [seeded-rebloom-skips-deleted-slots]=./kai/state/snapshot/
 )
 printf "%-36s %-12s %-8s %s\n" mutant repo-tests quick-rc signatures
 for p in /verif/mutants/c06-*.patch; do
